@@ -2084,8 +2084,10 @@ class Backend:
             for j in source_list_raw:
                 if isinstance(j, mesonlib.File):
                     source_list += [j.absolute_path(self.source_dir, self.build_dir)]
-                elif isinstance(j, (build.CustomTarget, build.BuildTarget)):
+                elif isinstance(j, (build.CustomTarget, build.BuildTarget, build.CustomTargetIndex)):
                     source_list += [os.path.join(self.build_dir, self.get_target_dir(j), o) for o in j.get_outputs()]
+                elif isinstance(j, build.GeneratedList):
+                    source_list += [os.path.join(self.build_dir, self.get_target_private_dir(target), o) for o in j.get_outputs()]
             source_list = [os.path.normpath(s) for s in source_list]
 
             compiler: T.List[str] = []
